@@ -9,6 +9,7 @@ import numpy as np
 
 from dst.core.driver import Check
 from dst.core.shrink import drop_from_list
+from dst.core import util
 from dst.core.util import Log, Counter, reset_process_state, dyadic
 
 INF = 1e30
@@ -302,7 +303,7 @@ class C21(Check):
         except Exception as e:      # noqa
             import traceback
             tb = traceback.extract_tb(e.__traceback__)
-            if not any('/repo/' in f.filename or 'scipy' in f.filename for f in tb):
+            if not any((util.REPO + '/') in f.filename or 'scipy' in f.filename for f in tb):
                 raise
             raised = type(e).__name__
             res_exc = f"{type(e).__name__}: {str(e)[:300]}"
@@ -913,7 +914,7 @@ class C23(Check):
                 import traceback
                 import re
                 tb = traceback.extract_tb(e.__traceback__)
-                if not any('/repo/' in f.filename or 'pydoe' in f.filename for f in tb):
+                if not any((util.REPO + '/') in f.filename or 'pydoe' in f.filename for f in tb):
                     raise
                 msg = f"{type(e).__name__}: {str(e)[:300]}"
                 if plan['gen']['kind'] == 'gsd' and 'reduction too large' in str(e):
